@@ -111,4 +111,4 @@ def scaled(x: Any, k: int) -> int:
     f = float(x)
     if math.isnan(f) or math.isinf(f):
         return -7777          # small enough that TLC's 32-bit arithmetic on it cannot overflow
-    return max(-10 ** 6, min(10 ** 6, int(round(f * k))))
+    return max(-10 ** 8, min(10 ** 8, int(round(f * k))))      # TLC integers are 32 bit; clauses multiply these by small cardinalities
